@@ -125,4 +125,18 @@ def wellformed_violations(f, source):
         cond = c_or(lt(h.lineno, 1), gt(h.lineno, nlines), lt(h.column, 1))
         if feasible(cond):
             out.append((f"C08:position-outside-file:{name}", f"{name} is located outside the file (line {conc(h.lineno)}, column {conc(h.column)}, file has {nlines} lines)"))
+    # the diagnostics of a REAL run, in the order the formatters will list them (Errors.__iter__), ascend by (line, column)
+    from symx.poly import c_and, eq
+    prev = None
+    for e in f.errors:
+        if not e.highlights:
+            continue
+        h = e.highlights[0]
+        if prev is not None:
+            cond = c_or(gt(prev[0], h.lineno), c_and(eq(prev[0], h.lineno), gt(prev[1], h.column)))
+            if feasible(cond):
+                nm = e.name if isinstance(e.name, str) else conc(e.name)
+                out.append((f"C08:order:real-run:{prev[2]}>{nm}", f"diagnostics of a real run are not listed in ascending (line, column) order: {prev[2]} before {nm}"))
+                break
+        prev = (h.lineno, h.column, e.name if isinstance(e.name, str) else conc(e.name))
     return out
